@@ -138,7 +138,10 @@ def tlc(cwd, module, cfg, workers=None, simulate=None, depth=None, tlcseed=None,
         heap=None, extra=(), dfs=False, coverage=False):
     """Runs TLC on module.tla with cfg in cwd. Returns TLCResult. Raises Inconclusive on timeout / crash of the tool."""
     meta = tempfile.mkdtemp(prefix="meta-", dir=cwd)
-    jopts = ["-XX:+UseParallelGC", "-Xss64m"]
+    # TLC unpacks its standard modules into java.io.tmpdir and leaves them there: keep that inside the work directory
+    jtmp = os.path.join(cwd, "jtmp")
+    os.makedirs(jtmp, exist_ok=True)
+    jopts = ["-XX:+UseParallelGC", "-Xss64m", "-Djava.io.tmpdir=" + jtmp]
     if heap:
         jopts.append("-Xmx%s" % heap)
     if dfs:
